@@ -107,6 +107,10 @@ def rand_table(r, big=False):
             rows.append(list(rows[-1]))  # repeated row
     if target_only and not any(row[2] == states[-1] for row in rows):
         rows.append([sources[0], r.choice(events), states[-1], r.choice(actions), none_sp()])
+    if r.random() < 0.2:
+        # several states that are only ever a target (final states)
+        for fs in names(r, "State", r.choice([2, 2, 3]), taken):
+            rows.append([r.choice(sources), r.choice(events), fs, r.choice(actions + [none_sp()]), none_sp()])
     if r.random() < 0.15:
         # names whose concatenations coincide: (OnGo, EventNowX) / (OnGoEvent, NowX), and a guard named like a static tag
         w = camel(r, 1)
